@@ -67,6 +67,8 @@ ClauseProp ==
     alloc_ok       |-> {"C18"},
     alloc_size     |-> {"C18"},
     alloc_enc      |-> {"C18"},
+    par_norace     |-> {"C08"},
+    par_nocrash    |-> {"C08"},
     rt_ok          |-> {"C01"},
     rt_n           |-> {"C01"},
     rt_val         |-> {"C01"} ]
@@ -197,6 +199,15 @@ JAllocs(line) ==
   [ cls |-> "Allocs>" \o obs.out,
     fail |-> IF obs.out # "ok" THEN {"alloc_ok"}
              ELSE If(obs.size_mallocs < line.calls, "alloc_size") \cup If(obs.enc_mallocs < line.calls, "alloc_enc") ]
+
+\* ---- concurrent sections (C08) --------------------------------------------------------
+\* The calls made inside a concurrent section are ordinary lines, judged like sequential calls
+\* (that IS the property: every call returns what it would return sequentially).  The section
+\* itself must end without a data-race report, a crash or a hang.
+JPar(line) ==
+  [ cls |-> "Par>" \o line.obs.out,
+    fail |-> IF line.obs.out = "ok" THEN {}
+             ELSE IF line.obs.out = "race" THEN {"par_norace"} ELSE {"par_nocrash"} ]
 
 \* round trip (C01): the decode of frugal's own output for value orig
 FailRoundTrip(ty, orig, in, obs) ==
